@@ -243,6 +243,9 @@ rc::Gen<vh::Case> vh_gen(const vh::Opts&);
 void vh_run(const vh::Case&, vh::Ctx&);
 // Optional hooks (weak defaults below).
 void vh_init(const vh::Opts&, vh::Ctx&) __attribute__((weak));
+// Optional deterministic enumeration run BEFORE the generated cases: fills `out` with the k-th case of this worker's share
+// (k = 0,1,2,...) and returns true, or returns false when the share is exhausted. Cases must be a pure function of (opts, k).
+bool vh_enum(const vh::Opts&, uint64_t k, vh::Case& out) __attribute__((weak));
 void vh_fini(const vh::Opts&, vh::Ctx&) __attribute__((weak));
 
 #ifdef VH_MAIN
@@ -355,8 +358,27 @@ static int vh_main(int argc, char** argv) {
     }
   }
 
+  // --- deterministic enumeration (optional) ---
+  if (vh_enum) {
+    Case c;
+    for (uint64_t k = 0; vh_enum(o, k, c); k++) {
+      std::string text = c.to_text();
+      write_current(text);
+      Failure f;
+      if (run_plain(c, ctx, &f)) {
+        if (o.known.count(f.key)) { ctx.known_hits[f.key]++; continue; }
+        std::string rp = base + ".case";
+        write_file(rp, "# property " + std::string(vh_property()) + " key=" + f.key + "\n# " + f.msg + "\n" + text + "end\n");
+        dump_counters(ctx, base + ".json", "fail", rp, f.key, f.msg);
+        printf("FAIL key=%s replay=%s msg=%s\n", f.key.c_str(), rp.c_str(), f.msg.c_str());
+        return 1;
+      }
+    }
+  }
+
   // --- generated cases ---
-  {
+  if (o.cases > 0) {
+    {
     char params[256];
     snprintf(params, sizeof params, "seed=%" PRIu64 " max_success=%ld max_size=%d max_discard_ratio=50 noshrink=0", o.seed, o.cases, o.max_size);
     setenv("RC_PARAMS", params, 1);
@@ -399,8 +421,6 @@ static int vh_main(int argc, char** argv) {
         ctx.samples.push_back(ctx.cur_sample.empty() ? text : ctx.cur_sample);
     }
   });
-  if (vh_fini) vh_fini(o, ctx);
-
   if (!ok && failed) {
     std::string rp = base + ".case";
     write_file(rp, "# property " + std::string(vh_property()) + " key=" + last_fail.key + "\n# " + last_fail.msg + "\n" + last_fail_text + "end\n");
@@ -414,6 +434,8 @@ static int vh_main(int argc, char** argv) {
     printf("GAVEUP\n");
     return 0;
   }
+  } // cases > 0
+  if (vh_fini) vh_fini(o, ctx);
   dump_counters(ctx, base + ".json", "ok", "", "", "");
   unlink((base + ".current").c_str());
   return 0;
